@@ -496,7 +496,18 @@ pub fn set_str_ids(ids: &HashMap<Txid, u64>, s: &lightning_signer::OrderedSet<Ou
 pub fn listener_digest_ids(tracker: &ChainTracker<ChainMonitor>, key: &OutPoint, ids: &HashMap<Txid, u64>) -> String {
     let (m, slot) = tracker.listeners.get(key).expect("listener");
     let st = serde_json::to_value(&*m.get_state()).unwrap();
-    format!("{} w={} seen={}", state_digest_ids(ids, &st), set_str_ids(ids, &slot.watches), set_str_ids(ids, &slot.seen))
+    // the views other components read, through the real accessors
+    // (`as_chain_state` does plain u32 arithmetic under the state lock: evaluated on a copy of the state, so that an
+    // underflow - possible only after a removal that did not carry the transactions of the block it removes, as the
+    // C13 generator produces on top of a zero filter header - does not poison the monitor's own mutex)
+    let copy = lightning_signer::monitor::ChainMonitorBase::new_from_persistence(
+        *key, m.get_state().clone(), &lightning_signer::channel::ChannelId::new(&[0u8; 32]));
+    let cs = match catch_unwind(AssertUnwindSafe(|| copy.as_chain_state())) {
+        Ok(c) => format!("{},{},{},{}", c.current_height, c.funding_depth, c.funding_double_spent_depth, c.closing_depth),
+        Err(_) => "panic".to_string(),
+    };
+    let view = format!("v={},{},{};{}", m.funding_depth(), m.funding_double_spent_depth(), m.closing_depth(), cs);
+    format!("{} w={} seen={} {}", state_digest_ids(ids, &st), set_str_ids(ids, &slot.watches), set_str_ids(ids, &slot.seen), view)
 }
 
 pub struct StateDigester<'a> {
@@ -736,8 +747,17 @@ pub fn expected_view(w: &World, chain: &[Vec<u64>]) -> String {
     let fmt = |v: Vec<(u64, u32)>| { let mut v = v; v.sort(); v.dedup(); format!("[{}]", v.iter().map(|(a, b)| format!("{}.{}", a, b)).collect::<Vec<_>>().join(",")) };
     let watches = fmt(tracked.iter().filter(|e| !e.1).map(|e| e.0).collect());
     let seen = fmt(tracked.iter().filter(|e| e.1).map(|e| e.0).collect());
+    // the depths other components read: number of blocks of the surviving chain from the event's block to the tip,
+    // both inclusive; 0 if the event is not on the chain (counted here from the chain itself, no height arithmetic)
+    let depth = |id: Option<u64>| -> u64 {
+        id.and_then(|x| chain.iter().position(|b| b.contains(&x))).map(|i| (chain.len() - i) as u64).unwrap_or(0)
+    };
+    let ds_id = if fh.is_some() { None } else { [D, D2].into_iter().filter(|x| height_of(*x).is_some()).min_by_key(|x| height_of(*x)) };
+    let close_id = close.or(if mc.is_some() { Some(M) } else { None });
+    let (fd, dd, cd) = (depth(fh.map(|_| F)), depth(ds_id), depth(close_id));
     format!(
-        "h={} fh={} fo={} ds={} mc={} uc={} co={} csh={} osh={} sf=0 w={} seen={}",
-        h0 + chain.len() as u64, on(fh), if fh.is_some() { format!("{}.0", F) } else { "-".into() }, on(ds), on(mc), on(uc), co, on(csh), on(osh), watches, seen
+        "h={} fh={} fo={} ds={} mc={} uc={} co={} csh={} osh={} sf=0 w={} seen={} v={},{},{};{},{},{},{}",
+        h0 + chain.len() as u64, on(fh), if fh.is_some() { format!("{}.0", F) } else { "-".into() }, on(ds), on(mc), on(uc), co, on(csh), on(osh), watches, seen,
+        fd, dd, cd, h0 + chain.len() as u64, fd, dd, cd
     )
 }
